@@ -8,6 +8,8 @@ import time
 from dataclasses import dataclass, field, asdict
 from typing import Dict, Iterable, List, Optional, Sequence, Tuple
 
+import re
+_SPLICE = re.compile(r"__h\d+")
 VERIF = pathlib.Path(__file__).resolve().parent.parent
 EVIDENCE_DIR = pathlib.Path(os.environ.get("PWSA_EVIDENCE_DIR", VERIF / "evidence"))
 KNOWN_FILE = VERIF / "known_findings.json"
@@ -59,6 +61,7 @@ def _mk(rule, fi, key, status, props, node, msg) -> Ob:
         line = getattr(node if node is not None else fi.node, "lineno", 0)
     if isinstance(props, str):
         props = (props,)
+    key = _SPLICE.sub("", key)          # locals of a spliced helper carry a suffix: not part of the construct's identity
     return Ob(rule, where, key, status, tuple(props), file, line, msg)
 
 
